@@ -29,6 +29,7 @@ def run(tier):
         'deterministic adversarial draw streams (slowly varying values that make the retry loops give up).')
     run.bounds = ['gnm n<=3,m<=4; gnd n<=4 (all shuffles for (2,1),(3,2),(4,1)); gnp n<=3; grid/torus <=3 dims with sides <=4; glrm (<=2)x(<=3); glrd/shift <=3x3(4x4); regular <=2x2 exhaustively',
                   'tape: 2-8 non-trivial draws per run (runs needing more are cut)', 'adversarial streams: 20 requests up to 6 vertices / 4x4 sides x 6 streams']
+    run.bounds += ['save specs include complete bipartite graphs']
     run.outside = ['regular: "regular on both sides for EVERY random outcome" beyond 2x2 - only the adversarial streams reach the fallback there', 'larger graphs', 'the internals of the networkx generators (their loops are explored only through the stub)']
     run.assumptions = ['RNG stub contract (random() in {0.0, 0.3, 0.9}; choice/sample/shuffle/randint arbitrary)', 'stub: cnfgen.graphs.open -> in-memory file for save']
     T = 400 if tier == 'quick' else 1500
